@@ -412,7 +412,7 @@ harness_run(void)
     for (uint64_t i = 0; i < 5; i++)
         vh_unit("closure", i, u_closure, NULL);
     vh_unit("setup", 0, u_setup, NULL);
-    uint64_t nh = vh_tier ? 4000 : 200;
+    uint64_t nh = vh_tier ? 24000 : 200;
     for (uint64_t i = 0; i < nh; i++)
         vh_unit("history", i, u_history, NULL);
     static const char *req[] = { "closure complete size=1", "closure complete size=5", "add refused (insufficient space)",
